@@ -1143,6 +1143,48 @@ def _forward_field_aliases(stmts):
     return out
 
 
+def _tuple_locals(fn):
+    """v = (c0, c1, ...) as the only binding of v in the function, every element a constant or a dotted constant name: v[i] is the element"""
+    stores = {}
+    for n in ast.walk(fn):
+        if isinstance(n, ast.Name) and isinstance(n.ctx, (ast.Store, ast.Del)):
+            stores[n.id] = stores.get(n.id, 0) + 1
+
+    def const(e):
+        if isinstance(e, ast.Constant):
+            return True
+        if isinstance(e, ast.Attribute):
+            r = e
+            while isinstance(r, ast.Attribute):
+                r = r.value
+            return isinstance(r, ast.Name) and r.id != 'self'
+        return False
+    recs = {}
+    ps = {a.arg for a in fn.args.args + fn.args.kwonlyargs}
+    for n in ast.walk(fn):
+        if isinstance(n, ast.Assign) and len(n.targets) == 1 and isinstance(n.targets[0], ast.Name) and isinstance(n.value, ast.Tuple) and n.value.elts \
+                and stores.get(n.targets[0].id) == 1 and n.targets[0].id not in ps and all(const(x) for x in n.value.elts):
+            recs[n.targets[0].id] = n.value.elts
+    if not recs:
+        return False
+
+    class V(ast.NodeTransformer):
+        changed = False
+
+        def visit_Subscript(self, node):
+            self.generic_visit(node)
+            if isinstance(node.ctx, ast.Load) and isinstance(node.value, ast.Name) and node.value.id in recs and isinstance(node.slice, ast.Constant) \
+                    and isinstance(node.slice.value, int) and 0 <= node.slice.value < len(recs[node.value.id]):
+                V.changed = True
+                new = clone(recs[node.value.id][node.slice.value])
+                for x in ast.walk(new):
+                    ast.copy_location(x, node)
+                return new
+            return node
+    V().visit(fn)
+    return V.changed
+
+
 def flatten(scope, fn, keep=(), module_level=False):
     fl = _Flattener(scope, keep, module_level)
     new = clone(fn)
@@ -1175,6 +1217,7 @@ def flatten(scope, fn, keep=(), module_level=False):
                 from .source import _FieldLocals
                 _FieldLocals().run(new)
                 new.body = _forward_field_aliases(new.body)
+                _tuple_locals(new)
     from .source import _GuardedLocals, _Canon
     _GuardedLocals().function(new)
     new = _Canon().visit(new)
